@@ -275,6 +275,45 @@ def run_file_histories(chk, n, replay=None):
                                                      "replay_cmd": "./check C16 --replay <this file>"})
 
 
+# ---- input-variable texts: evaluated before every execution (command line, playground); they see the predefined values too
+def var_item(rng, polluter):
+    if polluter:
+        k = rng.randrange(4)
+        if k == 0:
+            return {"vars": "甲 = 数值", "src": "输入甲\n以甲（自增：%d）\n输出甲\n" % rng.randrange(1, 9)}
+        if k == 1:
+            return {"vars": "甲 = 以数值（自减：%d）" % rng.randrange(1, 9), "src": "输入甲\n输出甲\n"}
+        if k == 2:
+            return {"vars": "甲 = 数值\n乙 = 【数值，2】", "src": "输入甲、乙\n以乙#1（自增：7）\n输出乙\n"}
+        return {"vars": "甲 = 3", "src": "输入甲\n以数值（自增：%d）\n输出数值\n" % rng.randrange(1, 9)}
+    return rng.choice([{"vars": "乙 = 数值 + 1", "src": "输入乙\n输出乙\n"},
+                       {"vars": "乙 = 数值", "src": "输入乙\n（显示：乙、数值）\n输出乙\n"},
+                       {"vars": "乙 = 【数值】", "src": "输入乙\n输出乙\n"}])
+
+
+def run_var_inputs(chk, n, replay=None):
+    rng = chk.rng
+    cases = [replay["items"]] if replay is not None else [[var_item(rng, True) for _ in range(rng.randrange(1, 4))] + [var_item(rng, False)] for _ in range(n)]
+    for shared in (True, False):
+        for items in cases:
+            o = core.harness("c16", "varseq", [{"items": items, "shared": shared}])[0]
+            a = core.harness("c16", "varseq", [{"items": [items[-1]], "shared": shared}])[0]
+            chk.count(["varseq", shared, items])
+            chk.dist("input-texts:%s" % ("shared-interpreter" if shared else "separate-interpreters"))
+            if "outs" not in o or "outs" not in a:
+                chk.violation("execution sequence with input-variable texts crashed the process: %s" % json.dumps(o)[:200], "vars:crash",
+                              {"kind": "vars", "items": items, "observed": o})
+                continue
+            if o["outs"][-1] != a["outs"][-1]:
+                chk.violation("what an input-variable text (and the program run with it) yields depends on earlier executions in the process: "
+                              "after %s the probe %s gives %s, alone %s" % (json.dumps(items[:-1], ensure_ascii=False)[:260],
+                                                                            json.dumps(items[-1], ensure_ascii=False)[:120],
+                                                                            json.dumps(o["outs"][-1], ensure_ascii=False)[:100],
+                                                                            json.dumps(a["outs"][-1], ensure_ascii=False)[:100]),
+                              "vars:polluted", {"kind": "vars", "items": items, "shared_interpreter": shared, "observed": o["outs"][-1],
+                                                "alone": a["outs"][-1], "replay_cmd": "./check C16 --replay <this file>"})
+
+
 def truncate_after_error(ops, obs):
     """a program stops at its first uncaught error: later operations produce no observation"""
     return obs
@@ -288,6 +327,9 @@ def run(chk, replay=None):
         return
     if replay is not None and replay.get("kind") == "files":
         run_file_histories(chk, 0, replay)
+        return
+    if replay is not None and replay.get("kind") == "vars":
+        run_var_inputs(chk, 0, replay)
         return
     nseq = 60 if quick else 600
     seqs = []
@@ -337,6 +379,7 @@ def run(chk, replay=None):
         return
     run_lib_objects(chk, 60 if quick else 800)
     run_file_histories(chk, 25 if quick else 400)
+    run_var_inputs(chk, 25 if quick else 400)
     chk.sample({"polluters": [render(p) for p in seqs[3][0]] if len(seqs) > 3 else [], "probe": render(seqs[-1][1])})
     # interleavings over one shared interpreter, replayed at method granularity
     nsch = 60 if quick else 600
